@@ -228,43 +228,55 @@ impl<F: FixedChannelRegion> RegionHandler for FixedChannelPlan<F> {
                 // or ChannelMask in the LinkADRReq in Data Frame.
                 // If it has not been reset yet, we continue to use the bias for the data frames.
                 // We hope to acquire ChannelMask via LinkADRReq.
-                if self.join_channels.has_bias_and_not_exhausted() {
+                let biased = if self.join_channels.has_bias_and_not_exhausted() {
                     let channel = self.join_channels.get_next_channel(rng);
                     let dr = if channel < 64 {
                         DR::_0
                     } else {
                         F::join_datarate_500khz()
                     };
-                    (dr, channel)
+                    Some((dr, channel))
                 // Alternatively, we will ask JoinChannel logic to determine a channel from the
                 // subband that  the join succeeded on.
                 } else if let Some(channel) = self.join_channels.first_data_channel(rng) {
                     // a 500 kHz data rate goes on the sub-band's 500 kHz channel
                     let bandwidth = F::datarates()[datarate as usize].as_ref().unwrap().bandwidth;
                     if bandwidth == Bandwidth::_500KHz {
-                        (datarate, 64 + channel / 8)
+                        Some((datarate, 64 + channel / 8))
                     } else {
-                        (datarate, channel)
+                        Some((datarate, channel))
                     }
                 } else {
-                    // For the data frame, the datarate impacts which channel sets we can choose
-                    // from. If the datarate bandwidth is 500 kHz, we must use
-                    // channels 64..=71. Else, we must use 0-63
-                    let bandwidth = F::datarates()[datarate as usize].as_ref().unwrap().bandwidth;
-                    if bandwidth == Bandwidth::_500KHz {
-                        let mut channel = (rng.next_u32() & 0b111) as u8;
-                        // keep selecting a random channel until we find one that is enabled
-                        while !self.channel_mask.is_enabled((channel + 64).into()).unwrap() {
-                            channel = (rng.next_u32() & 0b111) as u8;
+                    None
+                };
+                // The bias is a preference. A channel the mask in force disables is never used
+                // (the mask of an earlier session can still be there when the device was
+                // activated by personalisation after a join attempt that nobody answered).
+                match biased
+                    .filter(|(_, channel)| self.channel_mask.is_enabled((*channel).into()).unwrap())
+                {
+                    Some(choice) => choice,
+                    None => {
+                        // For the data frame, the datarate impacts which channel sets we can
+                        // choose from. If the datarate bandwidth is 500 kHz, we must use
+                        // channels 64..=71. Else, we must use 0-63
+                        let bandwidth =
+                            F::datarates()[datarate as usize].as_ref().unwrap().bandwidth;
+                        if bandwidth == Bandwidth::_500KHz {
+                            let mut channel = (rng.next_u32() & 0b111) as u8;
+                            // keep selecting a random channel until we find one that is enabled
+                            while !self.channel_mask.is_enabled((channel + 64).into()).unwrap() {
+                                channel = (rng.next_u32() & 0b111) as u8;
+                            }
+                            (datarate, 64 + channel)
+                        } else {
+                            let mut channel = (rng.next_u32() & 0b111111) as u8;
+                            // keep selecting a random channel until we find one that is enabled
+                            while !self.channel_mask.is_enabled(channel.into()).unwrap() {
+                                channel = (rng.next_u32() & 0b111111) as u8;
+                            }
+                            (datarate, channel)
                         }
-                        (datarate, 64 + channel)
-                    } else {
-                        let mut channel = (rng.next_u32() & 0b111111) as u8;
-                        // keep selecting a random channel until we find one that is enabled
-                        while !self.channel_mask.is_enabled(channel.into()).unwrap() {
-                            channel = (rng.next_u32() & 0b111111) as u8;
-                        }
-                        (datarate, channel)
                     }
                 }
             }
